@@ -30,6 +30,7 @@ type symPath struct {
 	conds []string
 	rets  []string
 	mem   map[string]string
+	calls []string // uninterpreted calls made on the path, in order (functions outside the module and opaque ones)
 }
 
 type symOut struct {
@@ -61,6 +62,7 @@ type symState struct {
 	val   map[ssa.Value]string
 	mem   map[string]string
 	conds []string
+	calls []string
 }
 
 func (s *symState) clone() *symState {
@@ -72,6 +74,7 @@ func (s *symState) clone() *symState {
 		n.mem[k] = v
 	}
 	n.conds = append([]string(nil), s.conds...)
+	n.calls = append([]string(nil), s.calls...)
 	return n
 }
 
@@ -133,6 +136,10 @@ func symLoad(mem map[string]string, a string) string {
 	}
 	return "*" + a
 }
+
+// symOpaque: module functions that are kept as uninterpreted calls instead of being inlined
+// (set by the caller of symPathsOpaque for the duration of one query).
+var symOpaque map[string]bool
 
 type symRun struct {
 	fn        *ssa.Function
@@ -275,12 +282,47 @@ func (r *symRun) step(b, prev *ssa.BasicBlock, from int, st *symState, visited m
 			st.val[n] = r.term(st, n.X)
 		case *ssa.MakeInterface:
 			st.val[n] = fmt.Sprintf("(iface %s)", r.term(st, n.X))
+		case *ssa.ChangeInterface:
+			st.val[n] = r.term(st, n.X)
+		case *ssa.Slice:
+			lo, hi := "", ""
+			if n.Low != nil {
+				lo = r.term(st, n.Low)
+			}
+			if n.High != nil {
+				hi = r.term(st, n.High)
+			}
+			st.val[n] = fmt.Sprintf("(slice %s %s %s)", r.term(st, n.X), lo, hi)
 		case *ssa.Extract:
-			st.val[n] = fmt.Sprintf("(ext%d %s)", n.Index, r.term(st, n.Tuple))
+			t := r.term(st, n.Tuple)
+			if strings.HasPrefix(t, "(tuple ") {
+				// result of an inlined call with several results: pick the component (top-level split)
+				parts := symSplit(t[7 : len(t)-1])
+				if n.Index < len(parts) {
+					st.val[n] = parts[n.Index]
+					break
+				}
+			}
+			st.val[n] = fmt.Sprintf("(ext%d %s)", n.Index, t)
+		case *ssa.TypeAssert:
+			if n.CommaOk {
+				ty := types.TypeString(n.AssertedType, func(*types.Package) string { return "" })
+				x := r.term(st, n.X)
+				st.val[n] = fmt.Sprintf("(tuple (assert:%s %s) (is:%s %s))", ty, x, ty, x)
+				break
+			}
+			st.val[n] = fmt.Sprintf("(assert:%s %s)", types.TypeString(n.AssertedType, func(*types.Package) string { return "" }), r.term(st, n.X))
 		case *ssa.Store:
 			if r.inlined {
 				if _, local := n.Addr.(*ssa.Alloc); !local {
-					if fa, ok := n.Addr.(*ssa.FieldAddr); !ok || !isAlloc(fa.X) {
+					local := false
+					if fa, ok := n.Addr.(*ssa.FieldAddr); ok && isAlloc(fa.X) {
+						local = true
+					}
+					if ia, ok := n.Addr.(*ssa.IndexAddr); ok && isAlloc(ia.X) {
+						local = true
+					}
+					if !local {
 						out.why = "store to non-local memory in inlined callee " + r.fn.Name()
 						return
 					}
@@ -303,12 +345,14 @@ func (r *symRun) step(b, prev *ssa.BasicBlock, from int, st *symState, visited m
 			for _, a := range n.Common().Args {
 				as = append(as, r.term(st, a))
 			}
-			if !strings.HasPrefix(fnPkgPath(callee), modPath) {
+			if !strings.HasPrefix(fnPkgPath(callee), modPath) || symOpaque[callee.Name()] {
 				nm := callee.Name()
 				if callee.Pkg != nil {
 					nm = callee.Pkg.Pkg.Name() + "." + nm
 				}
-				st.val[n] = "(call " + strings.TrimSpace(nm+" "+strings.Join(as, " ")) + ")"
+				t := "(call " + strings.TrimSpace(nm+" "+strings.Join(as, " ")) + ")"
+				st.val[n] = t
+				st.calls = append(st.calls, t)
 				break
 			}
 			if r.depth <= 0 {
@@ -337,6 +381,7 @@ func (r *symRun) step(b, prev *ssa.BasicBlock, from int, st *symState, visited m
 				} else {
 					ns.val[n] = "(tuple " + strings.Join(sp.rets, " ") + ")"
 				}
+				ns.calls = append(ns.calls, sp.calls...)
 				r.step(b, prev, idx+1, ns, visited)
 			}
 			return
@@ -353,7 +398,7 @@ func (r *symRun) step(b, prev *ssa.BasicBlock, from int, st *symState, visited m
 			}
 			return
 		case *ssa.Return:
-			p := symPath{conds: append([]string(nil), st.conds...), mem: map[string]string{}}
+			p := symPath{conds: append([]string(nil), st.conds...), mem: map[string]string{}, calls: append([]string(nil), st.calls...)}
 			sort.Strings(p.conds)
 			for _, x := range n.Results {
 				p.rets = append(p.rets, r.term(st, x))
@@ -401,4 +446,41 @@ func symExec(fn *ssa.Function, args []string, depth int) symRes {
 
 func (p symPath) String() string {
 	return "[" + strings.Join(p.conds, " ") + "] -> " + strings.Join(p.rets, ",")
+}
+
+// symSplit splits a space separated list of terms at the top level of parentheses.
+func symSplit(s string) []string {
+	var out []string
+	depth, start := 0, 0
+	for i := 0; i < len(s); i++ {
+		switch s[i] {
+		case '(':
+			depth++
+		case ')':
+			depth--
+		case ' ':
+			if depth == 0 {
+				out = append(out, s[start:i])
+				start = i + 1
+			}
+		case '"':
+			for i++; i < len(s) && s[i] != '"'; i++ {
+				if s[i] == '\\' {
+					i++
+				}
+			}
+		}
+	}
+	return append(out, s[start:])
+}
+
+// symPathsOpaque: symPaths with the named module functions kept as uninterpreted calls.
+func symPathsOpaque(fn *ssa.Function, depth int, opaque ...string) symOut {
+	saved := symOpaque
+	symOpaque = map[string]bool{}
+	for _, o := range opaque {
+		symOpaque[o] = true
+	}
+	defer func() { symOpaque = saved }()
+	return symPaths(fn, nil, depth)
 }
